@@ -561,7 +561,20 @@ func c20StateSkeleton(c *core.Ctx, r *core.Report) {
 	up := ups[0]
 	// reached on every path
 	s := newSummaries(c)
-	r.Check(s.mustCall(fn, objs(update)), "ORDER", "alertsHandler.handleAlertCondition:state-and-history-written-on-every-path", c.Pos(up.Pos()),
+	// every path reaches the update — except the rejection of a nil argument before anything was evaluated (a
+	// return of a known error on the `parameter == nil` edge)
+	var unrecorded *ssa.Return
+	core.WalkForward(fn, nil, func(in ssa.Instruction) bool {
+		if ci, ok := in.(ssa.CallInstruction); ok && core.IsCallTo(ci, update) {
+			return false
+		}
+		if ret, ok := in.(*ssa.Return); ok && unrecorded == nil && !isNilParamRejection(ret) {
+			unrecorded = ret
+		}
+		return true
+	})
+	_ = s
+	r.Check(unrecorded == nil, "ORDER", "alertsHandler.handleAlertCondition:state-and-history-written-on-every-path", c.Pos(up.Pos()),
 		"every path reaches updateAlertStateAndCreateAlertHistory", "some path returns without recording the evaluation: the next decision reads a history that misses an outcome")
 
 	shouldCalls := callsTo(fn, should)
@@ -1112,15 +1125,23 @@ func c20Window(c *core.Ctx, r *core.Report) {
 	// the current outcome must itself be Pending/Firing
 	okCur := false
 	for _, call := range callsTo(fn, pendOrFiring) {
-		if call.Call.Args[0] == ssa.Value(fn.Params[1]) && call.Block() == fn.Blocks[0] {
-			if ifi, ok := core.LastIf(call.Block()); ok && ifi.Cond == ssa.Value(call) {
-				fb := call.Block().Succs[1]
-				if ret, ok := fb.Instrs[len(fb.Instrs)-1].(*ssa.Return); ok {
-					if k, ok := core.RetResult(ret, 0).(*ssa.Const); ok && k.Value != nil && k.Value.String() == "false" {
-						okCur = true
-					}
-				}
+		if call.Call.Args[0] != ssa.Value(fn.Params[1]) {
+			continue
+		}
+		// every answer other than the constant false lies where the test of the current outcome is known true
+		// (the test need not be the very first statement: an argument check may precede it)
+		all, nAns := true, 0
+		for _, ret := range core.Returns(fn) {
+			if k, ok := core.RetResult(ret, 0).(*ssa.Const); ok && k.Value != nil && k.Value.String() == "false" {
+				continue
 			}
+			nAns++
+			if core.BoolKnownAt(call, ret.Block()) != core.Yes {
+				all = false
+			}
+		}
+		if all && nAns > 0 {
+			okCur = true
 		}
 	}
 	r.Check(okCur, "WINDOW", name+":current-outcome-must-match", c.Pos(fn.Pos()), "a non-matching current outcome answers false first", "the current outcome is no longer required to be Pending/Firing")
@@ -1145,11 +1166,55 @@ func c20Window(c *core.Ctx, r *core.Report) {
 // ---------------------------------------------------------------------------------------------- (4)
 
 func c20Notify(c *core.Ctx, r *core.Report) {
-	fn := c.Fn(pkgAlertsH, "shouldSendNotification")
-	cool, silence := c.Obj(pkgAlertsH, "isCooldownOver"), c.Obj(pkgAlertsH, "isSilenceMinutesOver")
+	entry := c.Fn(pkgAlertsH, "shouldSendNotification")
+	fn := entry
+	cpF, lsF := c.Field(pkgAlertU, "Notification.CooldownPeriod"), c.Field(pkgAlertU, "Notification.LastSentTime")
+	smF := c.Field(pkgAlertU, "AlertDetails.SilenceMinutes")
 	normal, inactive := c.ConstVal(pkgAlertU, "Normal"), c.ConstVal(pkgAlertU, "Inactive")
 	name := "alertsHandler.shouldSendNotification"
-	coolCalls, silCalls := callsTo(fn, cool), callsTo(fn, silence)
+	pt := &periodRoles{c: c, periodFields: map[types.Object]bool{cpF: true, smF: true}, lastField: lsF}
+	// The period tests are found by what they are asked about, not by their names: a call, in the deciding
+	// function, of a boolean function of the package one of whose arguments is the notification row's
+	// CooldownPeriod (the cool-down test) resp. the alert's SilenceMinutes (the silence test).  The deciding
+	// function is shouldSendNotification, or — when that only forwards (an explicit-clock variant holds the
+	// body) — the function of the package it hands its arguments to.
+	findTests := func(f *ssa.Function) (cool, sil []*ssa.Call) {
+		for _, ci := range core.CallsIn(f) {
+			call, ok := ci.(*ssa.Call)
+			if !ok {
+				continue
+			}
+			h := call.Call.StaticCallee()
+			if h == nil || h.Blocks == nil || core.FnPkgPath(h) != core.FnPkgPath(entry) {
+				continue
+			}
+			if bt, ok := call.Type().Underlying().(*types.Basic); !ok || bt.Kind() != types.Bool {
+				continue
+			}
+			for _, a := range call.Call.Args {
+				for _, o := range c.Origins(a, 0) {
+					if o.Kind == "field" && o.Obj == types.Object(cpF) {
+						cool = append(cool, call)
+					}
+					if o.Kind == "field" && o.Obj == types.Object(smF) {
+						sil = append(sil, call)
+					}
+				}
+			}
+		}
+		return
+	}
+	coolCalls, silCalls := findTests(fn)
+	if len(coolCalls) == 0 && len(silCalls) == 0 {
+		for _, ci := range core.CallsIn(entry) {
+			if h := ci.Common().StaticCallee(); h != nil && h.Blocks != nil && h.Parent() == nil && core.FnPkgPath(h) == core.FnPkgPath(entry) {
+				if cc, sc := findTests(h); len(cc) > 0 || len(sc) > 0 {
+					fn, coolCalls, silCalls = h, cc, sc
+					break
+				}
+			}
+		}
+	}
 	if len(coolCalls) != 1 || len(silCalls) != 1 {
 		r.Violation("GUARD", name+":tests-cooldown-and-silence", c.Pos(fn.Pos()), "the cool-down or the silence test is no longer made exactly once")
 		return
@@ -1166,8 +1231,6 @@ func c20Notify(c *core.Ctx, r *core.Report) {
 	}
 	r.Floor("GUARD", "true answers of shouldSendNotification", nTrue, 1)
 	// the tests use the notification row's period and last-sent time
-	cpF, lsF := c.Field(pkgAlertU, "Notification.CooldownPeriod"), c.Field(pkgAlertU, "Notification.LastSentTime")
-	smF := c.Field(pkgAlertU, "AlertDetails.SilenceMinutes")
 	hasField := func(v ssa.Value, f *types.Var) bool {
 		for _, o := range c.Origins(v, 0) {
 			if o.Kind == "field" && o.Obj == types.Object(f) {
@@ -1176,8 +1239,16 @@ func c20Notify(c *core.Ctx, r *core.Report) {
 		}
 		return false
 	}
-	r.Check(hasField(coolCalls[0].Call.Args[0], cpF) && hasField(coolCalls[0].Call.Args[1], lsF), "DEPENDS", name+":cooldown-from-the-notification-row", c.Pos(coolCalls[0].Pos()), "CooldownPeriod and LastSentTime of the alert's notification row", "the cool-down test is not made on the alert's own cool-down period and last-sent time")
-	r.Check(hasField(silCalls[0].Call.Args[0], smF) && hasField(silCalls[0].Call.Args[1], lsF), "DEPENDS", name+":silence-from-the-alert", c.Pos(silCalls[0].Pos()), "SilenceMinutes of the alert and LastSentTime", "the silence test is not made on the alert's own silence period and last-sent time")
+	anyArg := func(call *ssa.Call, f *types.Var) bool {
+		for _, a := range call.Call.Args {
+			if hasField(a, f) {
+				return true
+			}
+		}
+		return false
+	}
+	r.Check(anyArg(coolCalls[0], cpF) && anyArg(coolCalls[0], lsF), "DEPENDS", name+":cooldown-from-the-notification-row", c.Pos(coolCalls[0].Pos()), "CooldownPeriod and LastSentTime of the alert's notification row", "the cool-down test is not made on the alert's own cool-down period and last-sent time")
+	r.Check(anyArg(silCalls[0], smF) && anyArg(silCalls[0], lsF), "DEPENDS", name+":silence-from-the-alert", c.Pos(silCalls[0].Pos()), "SilenceMinutes of the alert and LastSentTime", "the silence test is not made on the alert's own silence period and last-sent time")
 	// Normal after Normal / Inactive is suppressed: under `cur == Normal`, LastAlertState == Inactive and LastAlertState == cur lead to `false`
 	lastF := c.Field(pkgAlertU, "Notification.LastAlertState")
 	var cur *ssa.Parameter
@@ -1260,7 +1331,7 @@ func c20Notify(c *core.Ctx, r *core.Report) {
 
 	// the sends are guarded by the answer
 	nf := c.Fn(pkgAlertsH, "NotifyAlertHandlerRequest")
-	ssn := callsTo(nf, fn.Object())
+	ssn := callsTo(nf, entry.Object())
 	if len(ssn) != 1 {
 		r.Violation("GUARD", "alertsHandler.NotifyAlertHandlerRequest:asks-shouldSendNotification", c.Pos(nf.Pos()), "the notifier no longer asks shouldSendNotification exactly once")
 		return
@@ -1363,98 +1434,179 @@ func c20Notify(c *core.Ctx, r *core.Report) {
 	}
 	r.Floor("GUARD", "send call sites in the notifier", nSend, 3)
 
-	// both period tests mean now − last >= period
-	for _, pn := range []string{"isCooldownOver", "isSilenceMinutesOver"} {
-		pf := c.Fn(pkgAlertsH, pn)
-		construct := "alertsHandler." + pn + ":means-now−lastSent>=period"
-		okAll, n := true, 0
-		for _, ret := range core.Returns(pf) {
-			if k, ok := core.RetResult(ret, 0).(*ssa.Const); ok {
-				// the only constant answer allowed: true when nothing was ever sent (IsZero)
-				isZeroGuard := false
-				for b := ret.Block(); b != nil && b.Idom() != nil; b = b.Idom() {
-					if ifi, ok := core.LastIf(b.Idom()); ok && b.Idom().Succs[0] == b && len(b.Preds) == 1 {
-						if call, ok := ifi.Cond.(*ssa.Call); ok {
-							if f := core.CalleeFunc(call); f != nil && f.Name() == "IsZero" {
-								isZeroGuard = true
-							}
-						}
-					}
-				}
-				if !(k.Value != nil && k.Value.String() == "true" && isZeroGuard) {
-					okAll = false
-				}
-				continue
-			}
-			n++
-			bo, ok := ret.Results[0].(*ssa.BinOp)
-			if !ok || bo.Op != token.GEQ {
-				okAll = false
-				continue
-			}
-			// X = now.Sub(last...)
-			sub, ok := bo.X.(*ssa.Call)
-			if !ok {
-				okAll = false
-				continue
-			}
-			f := core.CalleeFunc(sub)
-			if f == nil || f.Name() != "Sub" || len(sub.Call.Args) != 2 {
-				okAll = false
-				continue
-			}
-			fromNow, fromLast := false, false
-			for _, o := range c.Origins(sub.Call.Args[0], 0) {
-				if o.Kind == "call" && o.Obj != nil && o.Obj.Name() == "Now" {
-					fromNow = true
-				}
-				if o.Kind == "call" && o.Obj != nil && o.Obj.Name() == "UTC" {
-					if call, ok := o.Val.(*ssa.Call); ok {
-						for _, o2 := range c.Origins(call.Call.Args[0], 0) {
-							if o2.Kind == "call" && o2.Obj != nil && o2.Obj.Name() == "Now" {
-								fromNow = true
-							}
-						}
-					}
-				}
-			}
-			var lastP *ssa.Parameter
-			for _, p := range pf.Params {
-				if n, ok := p.Type().(*types.Named); ok && n.Obj().Name() == "Time" {
-					lastP = p
-				}
-			}
-			var walk func(v ssa.Value, d int) bool
-			walk = func(v ssa.Value, d int) bool {
-				if d > 4 {
-					return false
-				}
-				for _, o := range c.Origins(v, 0) {
-					if o.Kind == "param" && o.Val == ssa.Value(lastP) {
-						return true
-					}
-					if o.Kind == "call" {
-						if call, ok := o.Val.(*ssa.Call); ok && len(call.Call.Args) > 0 && walk(call.Call.Args[0], d+1) {
-							return true
-						}
-					}
-				}
-				return false
-			}
-			fromLast = walk(sub.Call.Args[1], 0)
-			// Y depends on the period parameter
-			fromPeriod := false
-			for _, o := range c.Origins(bo.Y, 0) {
-				if o.Kind == "param" && o.Val == ssa.Value(pf.Params[0]) {
-					fromPeriod = true
-				}
-			}
-			if !(fromNow && fromLast && fromPeriod) {
-				okAll = false
+	// both period tests mean now − last >= period.  Decided by role: the arguments of the test are the period
+	// (CooldownPeriod / SilenceMinutes), the last-sent time (LastSentTime) and possibly the clock (time.Now());
+	// the roles are carried into the test function and through every function of the package whose answer it
+	// returns unchanged, and where the answer is finally computed it is `now.Sub(last) >= period`, the only
+	// constant answer being `true` for a zero last-sent time.
+	for _, t := range []struct {
+		call *ssa.Call
+		what string
+	}{{coolCalls[0], "cooldown"}, {silCalls[0], "silence"}} {
+		pf := t.call.Call.StaticCallee()
+		construct := "alertsHandler." + c.BaseName(pf.Object()) + ":means-now−lastSent>=period"
+		roles := map[*ssa.Parameter]int{}
+		for i, a := range t.call.Call.Args {
+			if i < len(pf.Params) {
+				roles[pf.Params[i]] = pt.roleOf(a, nil, 0)
 			}
 		}
-		r.Check(okAll && n >= 1, "ORDERTABLE", construct, c.Pos(pf.Pos()), "answers now.Sub(lastSent) >= period (true when nothing was sent yet)", "the period test does not mean `now − lastSent >= period`")
+		ok, n, why := pt.check(pf, roles, 0)
+		if why == "" {
+			why = "the period test does not mean `now − lastSent >= period`"
+		}
+		r.Check(ok && n >= 1, "ORDERTABLE", construct, c.Pos(pf.Pos()), "answers now.Sub(lastSent) >= period (true when nothing was sent yet)", why)
 	}
+}
+
+// periodRoles carries the roles period / last-sent / clock through the period tests of the notifier.
+type periodRoles struct {
+	c            *core.Ctx
+	periodFields map[types.Object]bool
+	lastField    *types.Var
+}
+
+const (
+	roleNone = iota
+	rolePeriod
+	roleLast
+	roleNow
+)
+
+// roleOf: the role of value v in a function whose parameters have the roles pr.
+func (p *periodRoles) roleOf(v ssa.Value, pr map[*ssa.Parameter]int, depth int) int {
+	if depth > 6 || v == nil {
+		return roleNone
+	}
+	// method calls on a time value keep its role (t.UTC(), t.Local(), t.Round(0) ...)
+	if call, ok := v.(*ssa.Call); ok {
+		if f := core.CalleeFunc(call); f != nil {
+			if f.Pkg() != nil && f.Pkg().Path() == "time" && f.Name() == "Now" {
+				return roleNow
+			}
+			if sig, ok := f.Type().(*types.Signature); ok && sig.Recv() != nil && len(call.Call.Args) > 0 {
+				return p.roleOf(call.Call.Args[0], pr, depth+1)
+			}
+		}
+		return roleNone
+	}
+	found := roleNone
+	for _, o := range p.c.Origins(v, 0) {
+		role := roleNone
+		switch o.Kind {
+		case "field":
+			if p.periodFields[o.Obj] {
+				role = rolePeriod
+			}
+			if o.Obj == types.Object(p.lastField) {
+				role = roleLast
+			}
+		case "param":
+			par, _ := o.Val.(*ssa.Parameter)
+			if par == nil {
+				continue
+			}
+			if rl, ok := pr[par]; ok {
+				role = rl
+			} else if pr == nil && par.Parent() != nil {
+				// a parameter of the deciding function itself (an explicit clock): what its callers pass
+				idx := -1
+				for i, q := range par.Parent().Params {
+					if q == par {
+						idx = i
+					}
+				}
+				for _, cs := range p.c.StaticCallers()[par.Parent()] {
+					if idx >= 0 && idx < len(cs.Common().Args) {
+						if rl := p.roleOf(cs.Common().Args[idx], nil, depth+1); rl != roleNone {
+							role = rl
+						}
+					}
+				}
+			}
+		case "call":
+			if call, ok := o.Val.(*ssa.Call); ok && call != v {
+				role = p.roleOf(call, pr, depth+1)
+			}
+		}
+		if role != roleNone {
+			if found != roleNone && found != role {
+				return roleNone // mixed: not a clean carrier of one role
+			}
+			found = role
+		}
+	}
+	return found
+}
+
+// check: every answer of f (whose parameters have the roles pr) is now.Sub(last) >= period, the answer of a
+// function of the package with the roles handed on, or the constant true under an IsZero guard.
+func (p *periodRoles) check(f *ssa.Function, pr map[*ssa.Parameter]int, depth int) (ok bool, n int, why string) {
+	if f == nil || f.Blocks == nil || depth > 3 {
+		return false, 0, "the period test could not be followed to the comparison"
+	}
+	ok = true
+	for _, ret := range core.Returns(f) {
+		res := core.RetResult(ret, 0)
+		if k, isK := res.(*ssa.Const); isK {
+			// the only constant answer allowed: true when nothing was ever sent (IsZero)
+			isZeroGuard := false
+			for b := ret.Block(); b != nil && b.Idom() != nil; b = b.Idom() {
+				if ifi, ok := core.LastIf(b.Idom()); ok && b.Idom().Succs[0] == b && len(b.Preds) == 1 {
+					if call, ok := ifi.Cond.(*ssa.Call); ok {
+						if g := core.CalleeFunc(call); g != nil && g.Name() == "IsZero" {
+							isZeroGuard = true
+						}
+					}
+				}
+			}
+			if !(k.Value != nil && k.Value.String() == "true" && isZeroGuard) {
+				return false, n, "the period test has a constant answer other than `true` for a zero last-sent time"
+			}
+			continue
+		}
+		if call, isCall := res.(*ssa.Call); isCall {
+			h := call.Call.StaticCallee()
+			if h == nil || h.Blocks == nil || core.FnPkgPath(h) != core.FnPkgPath(f) {
+				return false, n, ""
+			}
+			sub := map[*ssa.Parameter]int{}
+			for i, a := range call.Call.Args {
+				if i < len(h.Params) {
+					sub[h.Params[i]] = p.roleOf(a, pr, 0)
+				}
+			}
+			ok2, n2, why2 := p.check(h, sub, depth+1)
+			n += n2
+			if !ok2 {
+				return false, n, why2
+			}
+			continue
+		}
+		n++
+		bo, isBo := res.(*ssa.BinOp)
+		if !isBo || bo.Op != token.GEQ {
+			return false, n, ""
+		}
+		subCall, isCall := bo.X.(*ssa.Call)
+		if !isCall {
+			return false, n, ""
+		}
+		g := core.CalleeFunc(subCall)
+		if g == nil || g.Name() != "Sub" || len(subCall.Call.Args) != 2 {
+			return false, n, ""
+		}
+		if p.roleOf(subCall.Call.Args[0], pr, 0) != roleNow {
+			return false, n, "the period test does not subtract from the current time"
+		}
+		if p.roleOf(subCall.Call.Args[1], pr, 0) != roleLast {
+			return false, n, "the period test does not subtract the last-sent time"
+		}
+		if p.roleOf(bo.Y, pr, 0) != rolePeriod {
+			return false, n, "the period test does not compare with the configured period"
+		}
+	}
+	return ok, n, ""
 }
 
 // ---------------------------------------------------------------------------------------------- (5)-(8),(10)
@@ -2153,11 +2305,18 @@ func c20SamePath(c *core.Ctx, r *core.Report) {
 					shape, found = sh, true
 					continue
 				}
-				if hc, ok := arg.(*ssa.Call); ok {
+				// the name comes from a helper of the package: its only result, or one result of several
+				// (name, error)
+				resIdx := 0
+				hv := arg
+				if ex, ok := arg.(*ssa.Extract); ok {
+					hv, resIdx = ex.Tuple, ex.Index
+				}
+				if hc, ok := hv.(*ssa.Call); ok {
 					if h := hc.Call.StaticCallee(); h != nil && h.Blocks != nil && core.FnPkgPath(h) == core.FnPkgPath(fn) {
 						for _, ret := range core.Returns(h) {
-							if len(ret.Results) == 1 {
-								if sh, ok := builderShape(c, h, ret.Results[0]); ok {
+							if resIdx < len(ret.Results) {
+								if sh, ok := builderShape(c, h, core.RetResult(ret, resIdx)); ok {
 									shape, found = sh, true
 								}
 							}
@@ -2624,4 +2783,34 @@ func c20RecursiveResults(c *core.Ctx, r *core.Report) {
 				"a recursive walk of the folder tree returns what it found in the sub-tree, and this call drops it: the items of sub-folders are never collected, so deleting a folder leaves its sub-folders and their dashboards behind (still listed, still on disk)")
 		}
 	}
+}
+
+// isNilParamRejection: the return reports a failure and lies on the edge where a pointer parameter of the
+// function was found nil — the function refuses to work on nothing, before it has done anything with it.
+func isNilParamRejection(ret *ssa.Return) bool {
+	if core.ReturnSuccess(ret) != core.No {
+		return false
+	}
+	for b := ret.Block(); b != nil && b.Idom() != nil; b = b.Idom() {
+		idom := b.Idom()
+		ifi, ok := core.LastIf(idom)
+		if !ok || len(b.Preds) != 1 {
+			continue
+		}
+		bo, ok := ifi.Cond.(*ssa.BinOp)
+		if !ok || (bo.Op != token.EQL && bo.Op != token.NEQ) || !core.IsNilConst(bo.Y) {
+			continue
+		}
+		if _, isPar := bo.X.(*ssa.Parameter); !isPar {
+			continue
+		}
+		nilEdge := idom.Succs[0]
+		if bo.Op == token.NEQ {
+			nilEdge = idom.Succs[1]
+		}
+		if nilEdge == b {
+			return true
+		}
+	}
+	return false
 }
